@@ -243,6 +243,28 @@ func endToEnd(c *mon.Ctx, r *gen.Rand) {
 		af.SetSpliceCountdown(r.Byte())
 		c.Count("e2e.splice_countdown_set_after_the_clocks")
 	}
+	afOnly := false
+	if r.Chance(3) {
+		// header setters that leave the adaptation field where it is come between the write and the read
+		switch r.Intn(5) {
+		case 0:
+			p.SetPID(r.Intn(8192))
+		case 1:
+			p.SetContinuityCounter(r.Intn(16))
+		case 2:
+			p.SetPayloadUnitStartIndicator(r.Bool())
+			p.SetTransportPriority(r.Bool())
+		default:
+			// the packet becomes one that only carries the clock references (no payload): the field stays
+			if err := p.SetAdaptationFieldControl(packet.AdaptationFieldFlag); err != nil {
+				c.Fail("e2e:af-setup", "SetAdaptationFieldControl(adaptation field only) on a packet with adaptation field and payload failed: "+err.Error(), nil)
+				return
+			}
+			afOnly = true
+			c.Count("e2e.payload_dropped_between_write_and_read")
+		}
+		c.Count("e2e.header_setter_between_write_and_read")
+	}
 	if r.Chance(3) {
 		// enabling a field that is already enabled changes nothing
 		if withP {
@@ -272,7 +294,7 @@ func endToEnd(c *mon.Ctx, r *gen.Rand) {
 		}
 	}
 	// one clock reference is taken away again (with further fields behind it): the other one stays what it was
-	if withP && withO && r.Chance(3) {
+	if withP && withO && !afOnly && r.Chance(3) {
 		tpd := r.Bytes(1 + r.Intn(40))
 		eT := af.SetHasTransportPrivateData(true)
 		if eT == nil {
@@ -375,6 +397,16 @@ func endToEnd(c *mon.Ctx, r *gen.Rand) {
 	if h.PTSDTS == 3 && (!ph.HasDTS() || ph.DTS() != h.DTS) {
 		c.Fail("e2e:pes-dts", fmt.Sprintf("PES DTS read back %d, carried %d", ph.DTS(), h.DTS), wit{Op: "DTS", Value: h.DTS, Got: mon.Hex(hb)})
 	}
+	// the header object is kept and looked at again after many later headers have been decoded
+	{
+		ptsdts, pts, dts := h.PTSDTS, h.PTS, h.DTS
+		keptHeaders.Keep(c, "decoded PES header", r, func() string {
+			if !ph.HasPTS() || ph.PTS() != pts || (ptsdts == 3) != ph.HasDTS() || (ptsdts == 3 && ph.DTS() != dts) {
+				return fmt.Sprintf("it reports PTS %d (%v) / DTS %d (%v), it was decoded from PTS %d / DTS %d (PTS_DTS_flags %d)", ph.PTS(), ph.HasPTS(), ph.DTS(), ph.HasDTS(), pts, dts, ptsdts)
+			}
+			return ""
+		})
+	}
 	// the same buffer receives the next header of the stream (same fixed bytes, other times) and is decoded again
 	{
 		hbk := append([]byte{}, hb...)
@@ -409,6 +441,9 @@ func endToEnd(c *mon.Ctx, r *gen.Rand) {
 	}
 	c.Class(fmt.Sprintf("e2e/pcr=%v/opcr=%v/ptsdts=%d/pcrclass=%s/sid=%x", withP, withO, h.PTSDTS, popclass(v>>36), sid>>4))
 }
+
+// keptHeaders: decoded PES headers that are looked at again after many later ones were decoded.
+var keptHeaders mon.Keeper
 
 // tightField: clock references in an adaptation field that is exactly as long as its content, in front of a
 // payload (the field cannot grow). They are read, overwritten in place and read back; then a setter that would
